@@ -115,7 +115,7 @@ def baseline_failures(props, cfgs):
     return out
 
 
-def run(prop=None, ident=None, jobs=6, cfgs=("default", "nodefault"), quiet=False):
+def run(prop=None, ident=None, jobs=6, cfgs=("default", "nodefault"), quiet=False, focus=False):
     sys.path.insert(0, VERIF)
     muts, refs = load_catalogue()
     entries = []
@@ -125,6 +125,10 @@ def run(prop=None, ident=None, jobs=6, cfgs=("default", "nodefault"), quiet=Fals
         entries.append(("refactor", mid, props, edits, []))
     if prop:
         entries = [e for e in entries if prop in e[2]]
+    if prop and focus:
+        # per-property thorough tier: all mutants of the property, and the refactorings written for this property's anchors
+        # plus the two generic sets (the complete catalogue is `python3 -m mqlint.selftest`)
+        entries = [e for e in entries if e[0] == "mutant" or e[1].startswith(("RF3-%s-" % prop, "RF-"))]
     if ident:
         entries = [e for e in entries if ident in e[1]]
     allprops = sorted(set(p for e in entries for p in e[2]))
